@@ -101,6 +101,11 @@ CORPUS += [
 S_ = "rl4co/envs/scheduling/"
 CORPUS += [
     # ---------------------------------------------------------------- C02
+    V("C02", "fjsp-wait-always-open", S_ + "fjsp/env.py", 'td["job_in_process"].any(1, keepdims=True) & (~td["done"])', 'td["job_in_process"].any(1, keepdims=True) | (~td["done"])', "C02.g"),
+    V("C02", "jssp-wait-always-open", S_ + "jssp/env.py", 'td["job_in_process"].any(1, keepdims=True) & (~td["done"])', 'td["job_in_process"].any(1, keepdims=True) | (~td["done"])', "C02.g"),
+    V("C02", "fjsp-wait-open-when-idle", S_ + "fjsp/env.py", 'td["job_in_process"].any(1, keepdims=True) & (~td["done"])', '(~td["job_in_process"].any(1, keepdims=True)) & (~td["done"])', "C02.g"),
+    V("C02", "eq-fjsp-wait-absorbed", S_ + "fjsp/env.py", 'td["job_in_process"].any(1, keepdims=True) & (~td["done"])', 'td["job_in_process"].any(1, keepdims=True)', None),
+    V("C02", "eq-fjsp-wait-only-when-done", S_ + "fjsp/env.py", 'td["job_in_process"].any(1, keepdims=True) & (~td["done"])', 'td["job_in_process"].any(1, keepdims=True) & td["done"]', None),
     V("C02", "cvrp-depot-no-exists-guard", R + "cvrp/env.py", 'mask_depot = (td["current_node"] == 0) & ((mask_loc == 0).int().sum(-1) > 0)[\n            :, None\n        ]', 'mask_depot = (td["current_node"] == 0)', "C02.b"),
     V("C02", "op-depot-not-reopened", R + "op/env.py", "        action_mask[..., 0] = 1\n", "", "C02.b"),
     V("C02", "mtsp-no-reopen-when-done", R + "mtsp/env.py", "        available[..., 0] = torch.logical_or(done, available[..., 0])\n", "", "C02.b"),
